@@ -17,7 +17,7 @@ def check(run):
                 for _ in range(3 if th else 1):
                     # arbitrary CP437 text: ASCII, accented letters, box drawing, Greek, symbols
                     tok = "".join(rng.choice("ABCDEFabcdef0123456789-_. éüñßÄ£¥░│╬αΩ±÷°") for _ in range(rng.randrange(1, 17)))
-                    receipt = rng.choice([1, 9999, rng.randrange(1, 10000)])
+                    receipt = rng.choice([0, 1, 9999, rng.randrange(0, 10000)])
                     sc = cc.Scenario(S, {"amount": pre, "cur": cur, "max": 2}).start()
                     cfg = sc.cfg
                     # begin: the reservation must be for the configured amount and currency, token in BMP60 ("AC", token)
